@@ -4,6 +4,7 @@ Ownership model for values (who owns which object) + frame conditions for Parame
 (an instance-level change is visible on that instance only; a subclass-level change never reaches
 the parent class).
 """
+import collections
 import copy
 
 from hypothesis import strategies as st
@@ -27,9 +28,13 @@ ASSUMPTIONS = [
 ]
 SIZES = {"quick": 1200, "thorough": 8000}
 
-VP = ["x", "l", "d", "sh", "c", "cn", "pi", "s", "se", "lr", "u", "v"]
+VP = ["x", "l", "d", "sh", "c", "cn", "pi", "s", "se", "lr", "u", "v", "sq", "su"]
 MUT = ["l", "sh", "c", "d", "lr"]
-ATTRS = ["bounds_x", "doc_x", "objs_append_s", "objs_assign_s", "objs_append_se", "bounds_pi", "doc_l", "step_x"]
+ATTRS = ["bounds_x", "doc_x", "objs_append_s", "objs_assign_s", "objs_append_se", "bounds_pi", "doc_l", "step_x",
+         # objects held in a deque / named objects held in a UserDict (mutable containers that are not list / dict)
+         "objs_append_sq", "objs_setitem_su",
+         # the instantiate flag of the class Parameter of the shared default is raised after instances may already exist
+         "instantiate_sh"]
 
 _i = st.integers(0, 7)
 _k = st.integers(0, 9)
@@ -54,6 +59,10 @@ def _ops():
         st.tuples(st.just("read"), _i, st.integers(0, len(VP) - 1)),
         st.tuples(st.just("icomp"), _i, _k),
         st.tuples(st.just("ccomp"), _c, _k),
+        # instances created (and dropped) inside a shared_parameters() block, which may be left through an exception
+        st.tuples(st.just("shared_block"), _c, st.booleans()),
+        st.tuples(st.just("cattr"), _c, st.sampled_from([8, 9, 10]), _k),
+        st.tuples(st.just("iattr"), _i, st.sampled_from([8, 9]), _k),
     )
 
 
@@ -81,6 +90,10 @@ def _case(draw):
 
 def strategy(tier):
     return _case()
+
+
+class _Boom(Exception):
+    pass
 
 
 def _static(K, n):
@@ -128,6 +141,8 @@ def execute(case):
         "pi": param.Number(default=2, bounds=(0, 10), per_instance=False),
         "s": param.Selector(objects=[1, 2, 3]),
         "se": param.Selector(),
+        "sq": param.Selector(default="a", objects=collections.deque(["a", "b"], maxlen=40)),
+        "su": param.Selector(default=1, objects=collections.UserDict({"m": 1, "f": 2})),
         "lr": param.List(default=[7], allow_refs=True),
         "u": param.Number(default=11), "v": param.Number(default=12),
         # assigning the composite assigns its two components, on the object (instance, class or subclass) it is assigned on
@@ -186,7 +201,7 @@ def execute(case):
         for K in classes:
             for n in VP:
                 got, want = getattr(K, n), cdefault(K, n)
-                if n in ("x", "pi", "s", "se", "u", "v"):
+                if n in ("x", "pi", "s", "se", "u", "v", "sq", "su"):
                     ok = got == want
                 else:
                     ok = got is want
@@ -201,10 +216,10 @@ def execute(case):
             o = rec["obj"]
             for n in VP:
                 got, want = getattr(o, n), expect(rec, n)
-                if n in rec.get("loose", ()) and (got is cdefault(rec["cls"], n) or (n in ("x", "pi", "s", "se", "u", "v") and
+                if n in rec.get("loose", ()) and (got is cdefault(rec["cls"], n) or (n in ("x", "pi", "s", "se", "u", "v", "sq", "su") and
                                                                                       got == cdefault(rec["cls"], n))):
                     continue
-                if n in ("x", "pi", "s", "se", "u", "v"):
+                if n in ("x", "pi", "s", "se", "u", "v", "sq", "su"):
                     if got != want:
                         res.fail("C12.instance_value", f"after {tag}: inst{idx}:{rec['cls'].__name__}.{n} is {got!r}, "
                                                        f"ownership model says {want!r}")
@@ -245,6 +260,10 @@ def execute(case):
             return {"k": k}
         if n == "s":
             return [1, 2, 3][k % 3]
+        if n == "sq":
+            return ["a", "b"][k % 2]
+        if n == "su":
+            return [1, 2][k % 2]
         return f"v{k}"          # se: any value (check_on_set=False appends it)
 
     n_cls_changes = 0
@@ -277,6 +296,10 @@ def execute(case):
                     rec["mirror"][n] = copy.deepcopy(cmir(K, n) if n in ("l", "lr") and cmir(K, n) is not None else dflt)
             for n in ("c", "cn"):
                 rec["own"][n] = kw.get(n, cdefault(K, n))
+            if _static(K, "sh").instantiate:
+                # the flag was raised on the class Parameter this class uses: instances made from now on get a copy of their own
+                rec["mirror"]["sh"] = copy.deepcopy(cdefault(K, "sh"))
+                res.label("instance_created_after_instantiate_flag_raised")
             for n in kw:
                 if n not in ("l", "d", "lr", "c", "cn"):
                     rec["own"][n] = kw[n]
@@ -325,6 +348,7 @@ def execute(case):
             finally:
                 o.param.unwatch(h)
             rec["own"][n] = dflt            # the instance did assign it, although to the object the class holds
+            rec["mirror"].pop(n, None)
             rec["own"]["pi"] = getattr(o, "pi")   # (trigger re-assigns the current value of what it announces)
             rec.setdefault("loose", set()).add("pi")
             rec.get("loose", set()).discard(n)
@@ -393,6 +417,17 @@ def execute(case):
             cown[(K, "u")], cown[(K, "v")] = op[2], op[2] + 30
             n_cls_changes += 1
             res.label("class_level_composite_set")
+        elif kind == "shared_block":
+            K = classes[op[1]]
+            try:
+                with param.shared_parameters():
+                    K()
+                    K()
+                    if op[2]:
+                        raise _Boom("inside shared_parameters")
+            except _Boom:
+                res.label("shared_parameters_block_left_through_an_exception")
+            frame(tag, before, lambda key: False)
         elif kind == "imut":
             if not insts:
                 continue
@@ -455,6 +490,12 @@ def execute(case):
                     P.doc = f"doc{k}"
                 elif what.startswith("step"):
                     P.step = k + 1
+                elif what == "objs_append_sq":
+                    P.objects.append(f"q{k}")
+                elif what == "objs_setitem_su":
+                    P.objects[f"n{k}"] = 300 + k
+                elif what == "instantiate_sh":
+                    P.instantiate = True
                 elif what.startswith("objs_append"):
                     P.objects.append(100 + k)
                 elif what.startswith("objs_assign"):
